@@ -5,7 +5,9 @@ Each case in cases.json is a small source edit (exact string replacement) of one
 The edit is applied to a scratch copy of that file outside /repo and /verif and handed to the
 checker as an overlay (the repository is never written); the checker runs exactly as for a
 registered check, but with a scratch evidence/replay directory. 'expect' is VIOLATION (with a
-regexp the refuted obligation must match) or NONE (a benign edit: no VIOLATION line allowed).
+regexp the refuted obligation must match), NONE (a benign edit: no VIOLATION line allowed) or
+UNDECIDED (a documented miss: the change breaks the property but the solvers neither prove nor
+refute the affected obligation in time - it must be reported UNDECIDED, never silently accepted).
 """
 import json, os, re, subprocess, sys, tempfile, shutil, concurrent.futures
 root = os.path.dirname(os.path.dirname(os.path.abspath(__file__)))
@@ -32,6 +34,11 @@ def run(case):
         refuted = [l for l in out.splitlines() if l.strip().startswith('refuted:')]
         if case['expect'] == 'NONE':
             ok = not viol and p.returncode == 0
+            return case, 'ok' if ok else 'FAIL', '' if ok else out[-1500:]
+        if case['expect'] == 'UNDECIDED':
+            # a documented miss: no alarm, and the affected obligation is reported as undecided
+            und = [l for l in out.splitlines() if l.startswith('UNDECIDED') and re.search(case.get('obligation', '.'), l)]
+            ok = not viol and p.returncode == 0 and bool(und)
             return case, 'ok' if ok else 'FAIL', '' if ok else out[-1500:]
         ok = bool(viol) and p.returncode == 1 and any(re.search(case.get('obligation', '.'), l) for l in refuted)
         return case, 'ok' if ok else 'FAIL', '' if ok else out[-1500:]
